@@ -491,8 +491,23 @@ func c18Property(t *rapid.T) {
 			}
 			var buf bytes.Buffer
 			calls := fs.calls
+			hadRender, hadSerialize := o.RenderOptions != nil, o.SerializeOptions != nil
 			err := writers[i].WriteStreamWithOptions(doc, nopCloser{&buf}, o)
 			logf("writer %d.WriteStreamWithOptions(format=%q indent=%v fo=%v) -> err=%v", i, co.format, co.indent, callFO, err)
+			// A call may complete the caller's option set. What it put there is then the caller's to edit: the caller
+			// does so (and takes the group out again, so that the set is as before for its next use) - if the object belongs
+			// to the library's defaults or to an instance, the invariant and the next option-less construction show it.
+			if !hadRender && o.RenderOptions != nil {
+				hx.Class("call_completed_the_callers_option_set")
+				o.RenderOptions.Indent = 1 + (o.RenderOptions.Indent+3)%9
+				o.RenderOptions = nil
+				if d := writer.New().Options; d.RenderOptions == nil || d.RenderOptions.Indent != 4 {
+					t.Fatalf("after the caller edited the render options a call had put into its own per-call set, a constructor called without options no longer yields the documented defaults (render options %+v)%s", d.RenderOptions, history())
+				}
+			}
+			if !hadSerialize && o.SerializeOptions != nil {
+				o.SerializeOptions = nil
+			}
 			switch {
 			case m.reconf:
 				hx.Class("call_on_instance_edited_after_construction")
